@@ -496,6 +496,13 @@ Definition proc_out (g : gstate) (i : nat) (o : obs nat) : bool :=
             for k_ in range(1, 7):
                 for j_ in range(1, 7):
                     cases.append({"threads": 2, "payloads": pay, "schedule": [0] * k_ + [1] * j_ + [0] * (6 - k_) + [1] * (6 - j_), "initial": None, "deia": False})
+        # a refresh of an entry that is already cached (download_even_if_available) next to a cache-only reader (download_if_missing=False)
+        # or a default reader: at every step boundary of the refresher the reader is served the cached, verified data — the entry is
+        # replaced atomically, it is never away
+        for reader in ({"dim": False, "deia": False}, {"dim": True, "deia": False}):
+            for k_ in range(1, 10):
+                cases.append({"threads": 2, "payloads": ["good", "good"], "schedule": [0] * k_ + [1] * 8, "initial": "old", "deia": True,
+                              "flags": [{"dim": True, "deia": True}, reader]})
         if tier != "quick":
             # exhaustively all interleavings of two loaders at step-boundary granularity (6 releases each: C(12,6) = 924)
             import itertools
@@ -553,6 +560,19 @@ Definition proc_out (g : gstate) (i : nat) (o : obs nat) : bool :=
                 def rename(self, a, b):
                     gate.wait("rename")
                     return os.rename(a, b)
+
+                # (not used by the loader as it is; a step boundary of their own if a change brings them in)
+                def remove(self, a):
+                    gate.wait("remove")
+                    return os.remove(a)
+
+                def unlink(self, a):
+                    gate.wait("unlink")
+                    return os.unlink(a)
+
+                def replace(self, a, b):
+                    gate.wait("replace")
+                    return os.replace(a, b)
             B.np, B.pickle, B.os = NP(), PK(), OS()
             done = {}
 
@@ -562,8 +582,9 @@ Definition proc_out (g : gstate) (i : nat) (o : obs nat) : bool :=
                 try:
                     with warnings.catch_warnings():
                         warnings.simplefilter("ignore")
+                        fl_ = (c.get("flags") or [{"dim": True, "deia": c["deia"]}] * c["threads"])[names.index(me)]
                         r = B.load_csv_dataset_from_remote(h.remote("good"), "ds", "fam", data_home=h.root, delay=0.0,
-                                                           download_even_if_available=c["deia"])
+                                                           download_if_missing=fl_["dim"], download_even_if_available=fl_["deia"])
                     results[me] = {"result": result_id(r)}
                 except Exception as e:
                     results[me] = {"exc": exn_name(e), "exc_msg": str(e)[:80]}
@@ -602,9 +623,10 @@ Definition proc_out (g : gstate) (i : nat) (o : obs nat) : bool :=
         if o.get("hang"):
             return "false"
         init = coq_opt(DATA_ID[c["initial"]] if c["initial"] else None)
-        fl = "{| download_if_missing := true; download_even_if_available := %s; validate_checksum := true; gzip := false; n_retries := 3 |}" % (
-            "true" if c["deia"] else "false")
-        procs = "; ".join("Some {| p_remote := {| r_slot := 5; r_digest := 1 |}; p_flags := %s; p_pc := PStart |}" % fl for _ in range(c["threads"]))
+        flags = c.get("flags") or [{"dim": True, "deia": c["deia"]}] * c["threads"]
+        fls = ["{| download_if_missing := %s; download_even_if_available := %s; validate_checksum := true; gzip := false; n_retries := 3 |}" % (
+            "true" if f_["dim"] else "false", "true" if f_["deia"] else "false") for f_ in flags]
+        procs = "; ".join("Some {| p_remote := {| r_slot := 5; r_digest := 1 |}; p_flags := %s; p_pc := PStart |}" % fl for fl in fls)
         # every release: the event is the thread's own payload when it waits at urlretrieve (the model ignores it elsewhere)
         rel = "; ".join("(%d%%nat, ENetOk [%d%%nat])" % (t, BLOB_ID[c["payloads"][t]]) for t in o["used"])
         outs = []
@@ -637,10 +659,15 @@ Definition proc_out (g : gstate) (i : nat) (o : obs nat) : bool :=
                 pass  # may legitimately come from the cache filled by another loader
         if any(p == "corrupt" for p in c["payloads"]) and cs.get("content", "").startswith("other"):
             fail("checksum-gate", "corrupted payload reached the cache")
+        if c.get("flags") and c["initial"]:
+            for i, (f_, r) in enumerate(zip(c["flags"], o["results"])):
+                if not f_["deia"] and r is not None and r.get("result") not in ("good", "old"):
+                    fail("cached-not-served", "reader %d (download_if_missing=%s) of a cached dataset got %s while another loader was refreshing the entry" % (
+                        i, f_["dim"], r.get("exc_msg") or r.get("result")))
         return F
 
     def key(self, c, o):
-        return (tuple(c["payloads"]), tuple(c["schedule"]), c["initial"], c["deia"])
+        return (tuple(c["payloads"]), tuple(c["schedule"]), c["initial"], c["deia"], str(c.get("flags")))
 
     def label(self, c, o):
         return "%dthreads" % c["threads"]
